@@ -13,9 +13,130 @@ def factory():
     return [C04Mon()]
 
 
+BAD = ("resubmit", "wrongmarket", "cancel_unsubmitted", "cancel_wrongmarket")
+
+
+def ctor_cases():
+    import itertools
+    for kind in ("L", "M"):
+        for price in (None, -1.0, 0.0, 100.0):
+            for volume in (-1, 0, 1, 3):
+                for ttl in (None, -1, 0, 1, 5):
+                    yield (kind, price, volume, ttl)
+
+
+def ctor_fn(case, wit):
+    """Order constructor grid: what must be refused is refused (by the constructor or at the latest
+    by the market), everything else is accepted."""
+    from ..common import Violation
+    from pams.market import Market
+    from pams.order import LIMIT_ORDER, MARKET_ORDER, Order
+    kind, price, volume, ttl = case
+    must_reject = volume <= 0 or (kind == "L" and price is None) or (kind == "M" and price is not None) or (ttl is not None and ttl < 0)
+    unspecified = ttl == 0 or (price is not None and price <= 0)
+    m = Market(0, None, None, "m")
+    m.setup({"tickSize": 1.0, "marketPrice": 100.0})
+    m._update_time(100.0)
+    try:
+        o = Order(0, 0, True, LIMIT_ORDER if kind == "L" else MARKET_ORDER, volume, price=price, ttl=ttl)
+        m._add_order(o)
+        accepted = True
+    except Exception:  # noqa
+        accepted = False
+    if must_reject and accepted:
+        raise Violation("C04.ctor_accepts", "an order with non-positive volume, negative time-to-live or inconsistent kind/price was accepted",
+                        "kind %s price %s volume %s ttl %s" % case)
+    if not must_reject and not unspecified and not accepted:
+        raise Violation("C04.ctor_rejects", "a valid order was refused", "kind %s price %s volume %s ttl %s" % case)
+    wit.inc("ctor_rejected" if not accepted else "ctor_accepted")
+    return (kind, accepted)
+
+
+def acc_invalid_programs(w):
+    """Engine R: no order object is accepted twice, by a market other than the one it names, or under
+    an id other than its submitter's; nobody's order is cancelled by somebody else."""
+    from ..acceptors_r import V
+    seen = set()
+    owner = {}
+    for e in w.ev:
+        if e[0] == "consult":
+            for x in e[4]:
+                owner.setdefault(id(getattr(x, "order", x)) if x.__class__.__name__ == "Cancel" else id(x), e[1])
+                if x.__class__.__name__ == "Cancel":
+                    owner[("cancel", id(x.order))] = e[1]
+        elif e[0] == "acc":
+            o = e[3]
+            V(id(o) not in seen, "C04.accepted_twice", "an order object was accepted twice")
+            seen.add(id(o))
+            V(o.market_id == e[1], "C04.wrong_market", "an order was accepted by a market other than the one it names")
+            V(owner.get(id(o)) == e[2].agent_id, "C04.foreign_id", "an order was accepted under an id other than its submitter's",
+              "submitted by agent %s, accepted for agent %s" % (owner.get(id(o)), e[2].agent_id))
+            w.wit.inc("acceptances_checked")
+        elif e[0] == "can":
+            o = e[3]
+            V(owner.get(("cancel", id(o))) == o.agent_id, "C04.foreign_cancel", "an agent's cancel of somebody else's order was accepted")
+
+
+def on_exc_invalid(w):
+    inv = [e for e in w.ev if e[0] == "invalid"]
+    if inv:
+        w.wit.inc("invalid_program_rejected_" + inv[-1][2])
+        # the run must stop AT the invalid submission: nothing of it may have been accepted
+        try:
+            acc_invalid_programs(w)
+        except Exception as v:  # noqa
+            return (getattr(v, "monitor", "C04.invalid"), getattr(v, "msg", str(v)))
+        return None
+    return ("C04.run_aborted", "a run of valid agent programs aborted | %s: %s" % (type(w.exc).__name__, str(w.exc)[:80]))
+
+
+def acc_invalid_must_abort(w):
+    inv = [e for e in w.ev if e[0] == "invalid"]
+    acc_invalid_programs(w)
+    if inv:
+        from ..common import Violation
+        raise Violation("C04.invalid_accepted", "a run continued although an agent re-submitted an accepted order object, used a foreign id, cancelled somebody else's order or handed one object over twice",
+                        "%s by agent %s" % (inv[0][2], inv[0][1]))
+
+
+def invalid_scenarios():
+    from ..explore_r import Scenario, S, mkcfg, bl, sl
+    from ..scenarios_r import CL
+    menu = [[], [bl(0, 101)], [sl(0, 99)], [bl(0, 99)], [CL], [["RESUBMIT"]], [["RESUBMIT", "live"]], [["SPOOF"]], [["CANCEL_OTHER"]], [["TWICE"]],
+            [bl(0, 100), ["RESUBMIT"]]]
+    ags = [dict(name="A0", menu=menu, program=[1, 3, 0], markets=["M0"]), dict(name="A1", menu=menu, program=[2, 0, 3], markets=["M0"]),
+           dict(name="H0", cls="ScriptedHFAgent", menu=menu, program=[0, 3], markets=["M0"])]
+    return {"invalid_programs": Scenario("invalid_programs", mkcfg(
+        [S(0, 2, True, False, maxNormalOrders=2, maxHighFrequencyOrders=1), S(1, 2, True, True, maxNormalOrders=2, maxHighFrequencyOrders=1)],
+        agents=ags))}
+
+
 def run(tier, seed):
-    return run_generic("C04", tier, seed, factory, WIT, RULE)
+    alph = {"quick_bad": __import__("vf.explore_m", fromlist=["alphabet"]).alphabet(bad=BAD)}
+    extra = [("empty", "free", 3 if tier == "quick" else 4, "quick_bad"), ("partial", "free", 2, "quick_bad"), ("expiring", "cont", 2, "quick_bad")]
+    res = run_generic("C04", tier, seed, factory, WIT + ["bad_op_rejected"], RULE, extra_alph=alph, extra_plan=extra)
+    from ..enum_f import run_grid
+    ev0, dn0 = res.coverage["evaluations"], res.coverage["distinct_nontrivial"]
+    run_grid(res, "order_constructor_grid", list(ctor_cases()), ctor_fn, seed)
+    from ._r import run_r
+    run_r("C04", tier, seed, invalid_scenarios(), [acc_invalid_must_abort], 2 if tier == "quick" else 3, on_exc_invalid,
+          ["ctor_rejected", "ctor_accepted", "acceptances_checked", "invalid_program_rejected_resubmit", "invalid_program_rejected_spoof",
+           "invalid_program_rejected_cancel_other", "invalid_program_rejected_twice_in_batch"], RULE, res=res, label="invalid_agent_programs")
+    return res
 
 
 def replay(payload):
+    if payload.get("engine") == "R":
+        from ._r import replay_r
+        return replay_r(invalid_scenarios(), [acc_invalid_must_abort], on_exc_invalid, payload)
+    if payload.get("engine") == "F" and payload.get("grid") != "deep_one_sided_books":
+        from ..common import Violation, Counter
+        try:
+            ctor_fn(tuple(payload["case"]), Counter())
+        except Violation as v:
+            print("  ==> VIOLATION %s: %s" % (v.monitor, v.msg))
+            print("VIOLATION property=C04 replay=(this file)")
+            return 1
+        print("replay: no violation on this tree")
+        return 0
     return replay_generic(payload, factory)
